@@ -47,6 +47,8 @@ def build(spec):
     kinds_pool = ["known_county", "unknown_county"] + (["unknown_district"] if el.district else [])
     if i % 10 == 9:
         kinds_pool = ["no_baseline_state"]
+    if i % 10 == 7:
+        kinds_pool = ["bare_id"]  # an id without any '_' (a state-wide absentee / provisional pseudo-unit)
     if i % 10 == 4:
         kinds_pool = ["padded_id"]  # an id that differs from a baseline unit's id only by surrounding whitespace
     n_extra = int(gen.choice(rng, [1, 1, 2, 3]))
@@ -66,6 +68,8 @@ def build(spec):
             f = f"{county}8{k}"
         else:
             f = f"{county}_8{k:02d}"
+        if kind == "bare_id":
+            f = ["ABSENTEE", "PROVISIONAL", "99999"][k % 3] + ("" if k < 3 else str(k))
         if kind == "padded_id":
             f = (" " + str(b.geographic_unit_fips)) if rng.random() < 0.5 else (str(b.geographic_unit_fips) + " ")
         if f in used:
